@@ -37,14 +37,19 @@ class MultiVector:
         :param items: keyword arguments can be used to initiate multivectors as well, e.g.
             :code:`MultiVector(alg, e12=1)`. Mutually exclusive with `values` and `keys`.
         """
-        if items and keys is None and values is None:
-            for key in list(items.keys()):
-                if key not in algebra.canon2bin:
-                    target, swaps = algebra._blade2canon(key)
-                    value = items.pop(key)
-                    items[target] = - value if swaps % 2 else value
+        if items and (keys is not None or values is not None):
+            raise TypeError('Basis blades given as keyword arguments can not be combined with `values` or `keys`.')
+        if items:
+            canon_items = {}
+            for key, value in items.items():
+                target, swaps = algebra._blade2canon(key)
+                if target not in algebra.canon2bin:
+                    raise ValueError(f'{key} is not a basis blade of this algebra.')
+                value = - value if swaps % 2 else value
+                # Different spellings of the same blade add up.
+                canon_items[target] = canon_items[target] + value if target in canon_items else value
 
-            keys, values = zip(*((blade, items[blade]) for blade in algebra.canon2bin if blade in items))
+            keys, values = zip(*((blade, canon_items[blade]) for blade in algebra.canon2bin if blade in canon_items))
             values = list(values)
 
         # Sanitize input
